@@ -456,8 +456,12 @@ def c07_cases(S, M, ST, O, which):
     t, s_ = sym("t"), sym("s")
     try:
         system = mk()
+    except Undecided as e:
+        O.obs.append((tag + "/constructible", core.UNKNOWN, "symla", 0.0, f"undecided: {e}", None, None))
+        return len(cases)
     except Exception as e:  # noqa: BLE001
-        O.flag(tag + "/constructible", False, f"{type(e).__name__}: {e}")
+        from ..symla import is_artefact
+        O.obs.append((tag + "/constructible", core.UNKNOWN if is_artefact(e) else core.FAILED, "symla", 0.0, f"{type(e).__name__}: {e}", None, None))
         return len(cases)
 
     def flowed(fn, dt, q0=None, p0=None):
